@@ -37,6 +37,32 @@ CLAIMS = {
         note=COMMON_NOTE),
 }
 
+BUF_NOTE = COMMON_NOTE + ("The buffer state machine (both strategies, both context kinds, forced flushes, metadata stamps) is the hand-written Lean model SC/Buffer.lean, "
+    "tied to the four buffered JSON families by correspondence after every step (result, disk content, reported size, capacity, set of buffered files). "
+    "Conflict detection is relative to (st_size, st_mtime_ns) changing; json.dumps length is modelled for the generated value alphabet. ")
+
+CLAIMS.update({
+    "C05": dict(
+        text="Theorems C05_buffered_save_defers (a save while buffered changes no file's content or metadata unless the size exceeds the capacity, and then it is exactly the forced flush), C05_exit_writes_buffered_{memory,serialized} (the flush at exit writes the buffered data and drops the entry). Transparency (every result equals the unbuffered result, incl. clear/reset, dict and list, all four classes) is decided by correspondence with the model plus a twin oracle that executes each program on the unbuffered class.",
+        design_ref="§5 C05", technique="Lean 4 theorems on the buffer machine + differential correspondence + unbuffered-twin oracle",
+        note=BUF_NOTE + "Partial: transparency is not a Lean theorem yet (needs the merge post-condition update_post); it is checked by correspondence/twin."),
+    "C06": dict(
+        text="Theorems C06_memory_objects_share (after a buffered load the object's data IS the buffered container), C06_serialized_load_merges_entry, C06_memory_flush_writes_buffered and C06_serialized_flush_decides_from_entry: what is written, and whether, is determined by the shared entry for EVERY flushing object, so no pop order or reader/writer assignment can lose a write. Histories with k=2 objects per file entering/leaving together by correspondence and twin oracle.",
+        design_ref="§5 C06", technique="Lean 4 theorems on the buffer machine + joint-context differential histories + twin oracle",
+        note=BUF_NOTE),
+    "C07": dict(
+        text="Theorems C07_conflict_raises_and_preserves_{serialized,memory} (modified entry + changed metadata => MetadataError, no file content or metadata changes), C07_readonly_silent_* (only-read entries never raise, never write), C07_settings_restored (capacity and stack restored at context exit in every state, i.e. also when the exit raises). BufferedError naming exactly the conflicting files, other files still written, usable afterwards: exhaustive (role x outside-write) scenarios on the real classes and generated programs with outside writers in correspondence with the model.",
+        design_ref="§5 C07", technique="Lean 4 theorems + exhaustive conflict scenarios + outside-writer differential programs",
+        note=BUF_NOTE + "After a forced flush has reported a conflict for a file, what later writes to that file do is not claimed."),
+    "C15": dict(
+        text="Theorem C15_size_exact: for EVERY history (operations, both context kinds in any nesting, capacity changes, forced and failing flushes, outside writes) from the initial state, reported size = sum of encoded lengths of the buffered files (serialized) / number of buffered files with unflushed modifications (shared memory), and no file is buffered twice - an invariant proved over all 9 kinds of steps. C15_capacity_restored / C15_set_capacity. 'size <= capacity after every operation' and 'size 0 outside contexts' are decided by the twin oracle and correspondence (not yet theorems).",
+        design_ref="§5 C15", technique="Lean 4 invariant by induction over histories + correspondence on size/capacity after every step + independent recomputation from twin files",
+        note=BUF_NOTE + "Partial: boundedness and zero-outside are checked, not proved."),
+})
+CLAIMS["C17"]["text"] = ("Theorems C17_read_pure / C17_reads_pure: in the model no read operation (any handle, any state, returned or raised) changes any backend or creates a missing one; "
+    "buffered: C07_readonly_silent_* (an entry that was only read is never written by any flush). Tied by correspondence, an oracle that re-reads the resource after every read, and the buffered twin oracle "
+    "(bytes, inode and mtime_ns of files on which no mutator was called are unchanged across all contexts).")
+
 NOT_YET = {}
 
 NOTES = ("All checks share one pipeline (./check): regenerate lean/SC/Generated/Tables.lean from /repo, lake build the model driver and the property's "
